@@ -5,6 +5,7 @@ import (
 	"time"
 
 	"github.com/yandex/pandora/core"
+	"go.uber.org/atomic"
 )
 
 type CompositeConf struct {
@@ -53,14 +54,17 @@ type compositeSchedule struct {
 	rwMu      sync.RWMutex
 	scheds    []core.Schedule // At least once schedule. First schedule can be finished.
 	leftAfter []int           // Tokens leftBefore, if known exactly, or at least tokens leftBefore otherwise.
+	started   atomic.Bool     // Set by Start and Next. Nothing can be finished before that.
 }
 
 func (s *compositeSchedule) Start(startAt time.Time) {
 	s.rwMu.Lock()
 	defer s.rwMu.Unlock()
+	s.started.Store(true)
 	s.scheds[0].Start(startAt)
 }
 func (s *compositeSchedule) Next() (tx time.Time, ok bool) {
+	s.started.Store(true)
 	s.rwMu.RLock()
 	tx, ok = s.scheds[0].Next()
 	if ok {
@@ -110,6 +114,11 @@ func (s *compositeSchedule) Left() int {
 	if left == 0 {
 		if leftAfter >= 0 {
 			return leftAfter
+		}
+		if !s.started.Load() {
+			// Not started, so no nested schedule is finished, and tokens left are still unknown.
+			// Shifting now would start nested schedules too early.
+			return -1
 		}
 		// leftAfter was unknown, at schedule create moment.
 		// But now, it can be finished. Let's shift, and try one more time.
